@@ -1,12 +1,13 @@
 """Per-property configuration of the checks (see DESIGN.md sect. 4 and 9)."""
 
 RUNNER_PKG = "./internal/app/connectconformance"
-RUNNER_FILES = ["client_runner.go", "process.go", "server_runner.go", "connectconformance.go", "results.go"]
+RUNNER_FILES = []  # all non-test files of the package: map ranges in the library decide the order of requests
 RUNNER_INSTRUMENT = [
     {"pkg": RUNNER_PKG, "files": RUNNER_FILES, "mode": "S",
      "instpkgs": ["connectrpc.com/conformance/internal"],
      "redirect": ["runCommand=verifRunCommand", "runInProcess=verifRunInProcess"]},
     {"pkg": "./internal", "files": ["delimited.go", "printer.go"], "mode": "S"},
+    {"pkg": "./internal/app/connectconformance/testsuites", "files": [], "mode": "S"},
 ]
 RUNNER_REAL = [
     "internal/app/connectconformance: client_runner.go, server_runner.go, process.go (makeProcess, runInProcess, localProcess), connectconformance.go, results.go (instrumented copies of the current tree)",
@@ -35,6 +36,22 @@ def runner_check(scn, rule, probes, assumptions, quick=25, thorough=900):
 
 
 CHECKS = {
+    "C04": runner_check(
+        "c04",
+        "each evaluation is one simulated execution of connectconformance.Run itself (config file, suite file, patterns, report) with scripted peers in every process slot (under-test or reference slots); the selected cases' fates (pass, assertion failure, client error, neither, never answered), markings (unmarked / known failing / known flaky), peer feedback (reference-server stderr, reference-client feedback), the client process fate (exits 0 or non-0 early, stalls, cut output) and server fates (start error, garbage, never, exits before request, dies mid-batch) and every scheduling decision come from one tape; the boolean returned by Run is compared with an independent reference model of the statement. Distinct = hash of step log + harness events; non-trivial = a fault fired or a preemption happened; abstract_cover lists the truth-table rows (fate x marking x feedback x process fate) reached.",
+        ["client(scripted-client):exit-early", "client(reference-client):exit-early", "server:start-error", "server:response-garbage", "server:server-dies-mid-batch"],
+        ["the selected set is computed with the library's own expansion and filter (C07/C08 assumed)",
+         "a run in which an answer may or may not have been delivered (written after a stream fault or a timeout gap) is inconclusive for the iff and only checked for the output laws",
+         "failure of Run although every case met its expectation is accepted when a peer process misbehaved (non-zero exit, kill, stall, stream fault)"],
+        quick=40, thorough=900),
+    "C05": runner_check(
+        "c05",
+        "each evaluation is one simulated execution of connectconformance.Run with recording scripted peers in every slot: config (HTTP versions, protocols incl. gRPC and gRPC-Web, codecs, TLS), suite size, --run/--skip patterns, reference or under-test slots (so gRPC-peer permutations and markers occur), --max-servers 1-4, answer latencies, client/server faults and every scheduling decision (including the seeded order of server instances) come from one tape. Distinct = hash of step log + harness events; non-trivial = a fault fired or a preemption happened.",
+        ["c05-concurrent-servers"],
+        ["the selected set is taken from the library's own allPermutations + filter (C07/C08 assumed, not re-decided)",
+         "exactly-once is demanded when no peer misbehaves; with peer faults: at most once and never a non-selected name",
+         "OS processes are stubbed, so cmdProcess.abort/WaitDelay are outside this check"],
+        quick=40, thorough=900),
     "C11": runner_check(
         "c11",
         "each evaluation is one simulated execution of runTestCasesForServer with the real clientProcessRunner against a scripted server process and a scripted client process; batch size, TLS mode, reference flags, the server's fate (start error, exits before its request, response truncated at byte k / oversize / empty / garbage / never / without certificate, dies after k of n requests, stderr lines) and the client's fate (answer kinds and latencies, cut, garbage, unknown name, early exit, stops reading, missing answers), kill delays and every scheduling decision come from one tape. Distinct = hash of step log + harness events; non-trivial = a fault fired or a preemption happened.",
